@@ -35,7 +35,7 @@ class _ActionOps(ModelObj):
         ctx = I.ctx
         g = ctx.ghost
         ctx.oblige(f"{ctx.func}/call/Action.inverse/requires:world==dst(action)", g["world"] == dst(self.a),
-                   kind="pre", props=("C02",))
+                   kind="pre", props=("C02", "C01"))
         r = ctx.fresh("inv", ActRef)
         ctx.assume(AND(src(r) == dst(self.a), dst(r) == src(self.a)))
         g["world"] = src(self.a)
